@@ -46,6 +46,11 @@ var c17Selects = []string{
 	`SELECT a + b * 2 AS x, /^c/ FROM /^m.*/ WHERE a::integer > 1 AND b = true AND host = 'cpu' GROUP BY /h.*/ fill(0)`,
 	`SELECT count(distinct(v)), first(v), sum(v) / count(v) FROM cpu WHERE (a = 1 OR c1 = 'x') AND time > 0 GROUP BY time(10s), "t a g" fill(linear)`,
 	`SELECT value, "select" FROM cpu`,
+	// field lists whose backing array has spare capacity (the parser appends: 3 fields -> cap 4, 5 -> cap 8) and
+	// selector calls with tag arguments in last / first position: operations that build a column list from Fields
+	`SELECT a, b, top(value, host, 2) FROM cpu`,
+	`SELECT v1, v2, v3, v4, bottom(value, host, region, 3) FROM cpu GROUP BY time(1m)`,
+	`SELECT top(value, host, 2), usage, idle FROM cpu WHERE time > now() - 1h`,
 }
 
 var c17Aux = []string{
